@@ -66,11 +66,21 @@ fn effective(c: &Case) -> FactorCase {
         (FactorCase::UserFile { meta, lines, red1, red2 }, Some(u)) => {
             let mut lines = lines.clone();
             match u {
-                Unusable::NoElectricityGrid => lines.retain(|l| !(l.car == Car::ELECTRICIDAD && l.src == FSrc::RED)),
+                Unusable::NoElectricityGrid => {
+                    lines.retain(|l| !(l.car == Car::ELECTRICIDAD && l.src == FSrc::RED));
+                    // electricity must still appear in the set (a set without any electricity
+                    // factor is simply a set for buildings without electricity)
+                    if !lines.iter().any(|l| l.car == Car::ELECTRICIDAD) {
+                        lines.push(FLine { car: Car::ELECTRICIDAD, src: FSrc::INSITU, dest: FDest::A_RED, step: FStep::A, f: [0.5, 0.5, 0.5], comment: String::new() });
+                    }
+                }
                 Unusable::OrphanLine(car) => {
                     let orphan = if lines.iter().any(|l| l.car == *car && l.src == FSrc::RED && l.dest == FDest::SUMINISTRO && l.step == FStep::A) || matches!(car, Car::EAMBIENTE | Car::TERMOSOLAR) {
                         // the carrier has its grid line: make electricity the orphan instead
                         lines.retain(|l| !(l.car == Car::ELECTRICIDAD && l.src == FSrc::RED));
+                        if !lines.iter().any(|l| l.car == Car::ELECTRICIDAD) {
+                            lines.push(FLine { car: Car::ELECTRICIDAD, src: FSrc::INSITU, dest: FDest::A_NEPB, step: FStep::B, f: [0.5, 0.5, 0.5], comment: String::new() });
+                        }
                         None
                     } else {
                         Some(*car)
@@ -101,7 +111,7 @@ impl Prop for C07 {
     }
     fn assumptions() -> Vec<String> {
         vec![
-            "every usable set contains ELECTRICIDAD, RED, SUMINISTRO, A (Factors::normalize rejects a set without it; the property does not regulate that)".into(),
+            "generated usable sets contain ELECTRICIDAD, RED, SUMINISTRO, A (every real set does); an unusable set always keeps some line of the carrier whose grid factor is missing".into(),
             "no COGEN-source lines in user files (removed from the format)".into(),
             "factor values are thousandths, so printing with 3 decimals is exact".into(),
         ]
